@@ -190,3 +190,14 @@ META = {
     "technique": "Lean 4 proof (stack invariant of the normpath loop, split/join lemmas) + exhaustive/random "
                  "differential correspondence",
 }
+
+
+def replay(data):
+    """./check C34 --replay <file>: re-evaluate the property on the recorded path against the bound tree"""
+    from paramiko.sftp_si import SFTPServerInterface
+
+    path = data["case"]["path"]
+    out = SFTPServerInterface(None).canonicalize(path)
+    bad = check_one(None, path, out)
+    print("canonicalize(%r) = %r -> %s" % (path, out, "FAILS: %s (%s)" % bad if bad else "holds"))
+    return 1 if bad else 0
